@@ -25,6 +25,7 @@ from pymarkdown.general.parser_logger import ParserLogger
 from pymarkdown.general.parser_state import ParserState
 from pymarkdown.general.position_marker import PositionMarker
 from pymarkdown.general.requeue_line_info import RequeueLineInfo
+from pymarkdown.general import verif_probe
 from pymarkdown.general.source_providers import InMemorySourceProvider, SourceProvider
 from pymarkdown.html.html_helper import HtmlHelper
 from pymarkdown.inline.inline_character_reference_helper import (
@@ -121,6 +122,8 @@ class TokenizedMarkdown:
         """
         Transform a markdown-encoded string into an array of tokens.
         """
+        if verif_probe.ENABLED:
+            verif_probe.emit("parse_begin")
         try:
             self.__tokenized_document = []
             self.__token_stack = []
@@ -151,8 +154,14 @@ class TokenizedMarkdown:
                 final_pass_results, only_change_text_blocks=True
             )
             POGGER.debug("\n\n>>>>>>>final_pass_results>>>>>>")
+            if verif_probe.ENABLED:
+                verif_probe.emit("parse_end", ok=True, n=len(final_coalesced_results))
             return final_coalesced_results
         except Exception as this_exception:
+            if verif_probe.ENABLED:
+                verif_probe.emit(
+                    "parse_end", ok=False, kind=type(this_exception).__name__
+                )
             raise BadTokenizationError(
                 "An unhandled error occurred processing the document."
             ) from this_exception
@@ -251,6 +260,14 @@ class TokenizedMarkdown:
             self.__handle_blank_line,
             self.__parse_properties,
         )
+        if verif_probe.ENABLED:
+            verif_entry = (
+                line_number,
+                did_start_close,
+                next_line_in_document,
+                len(requeue),
+                ignore_link_definition_start,
+            )
         keep_on_going = True
         if did_start_close:
             (
@@ -292,6 +309,30 @@ class TokenizedMarkdown:
                 tokens_from_line,
                 did_start_close,
                 did_started_close,
+            )
+        if verif_probe.ENABLED:
+            verif_probe.emit(
+                "pstep",
+                ln_in=verif_entry[0],
+                closing_in=verif_entry[1],
+                line=verif_entry[2],
+                rq_in=verif_entry[3],
+                ign_in=verif_entry[4],
+                requeued=(
+                    len(requeue_line_info.lines_to_requeue)
+                    if keep_on_going
+                    and requeue_line_info
+                    and requeue_line_info.lines_to_requeue
+                    else 0
+                ),
+                keep=keep_on_going,
+                ln_out=line_number,
+                closing_out=did_start_close,
+                rq_out=len(requeue),
+                ign_out=ignore_link_definition_start,
+                next_is_none=next_line_in_document is None,
+                stack=[str(i) for i in self.__token_stack],
+                ndoc=len(self.__tokenized_document),
             )
         return (
             keep_on_going,
